@@ -302,6 +302,10 @@ func (ck *checker) judge(ctxS px.Context, v px.Value, spec *Spec, cfg Config, ou
 		tags = []string{"user-hash-ptype-key"}
 		res.Count("value.user-hash-with-__ptype-key")
 	}
+	if cfg.Rich && spec.coarseDefault() {
+		tags = append(tags, "object-default-coarse-equals")
+		res.Count("value.object-default-with-coarse-equals")
+	}
 	switch {
 	case out.serFault != "":
 		violate("roundtrip-no-fault", "serializer/consumer panicked: "+out.serFault, faultTags)
